@@ -35,13 +35,28 @@ ASSUMPTIONS = [
     "steps after the residual is numerically exhausted are not judged (known finding K2 of C01)",
     "`tolerance` is the user's absolute 'this is zero' threshold (item norms) and relative pseudo-inverse cut (selected spectrum): cases where a residual item norm or the squared relative spectrum of the selections is within 100x of it are skipped",
 ]
-KINDS = ("gauss", "gauss", "uniform", "scaled1", "clustered", "lattice", "lowrank_hi")
+KINDS = ("gauss", "gauss", "uniform", "scaled1", "clustered", "lattice", "lowrank_hi", "copies", "multiscale")
 TOL_PI = 1e-6
 
 
 def _matrix(rng, n, m, kind):
     if kind == "scaled1":
         return rng.normal(size=(n, m)) * 10.0 ** rng.uniform(-1, 1, size=m)
+    if kind == "copies":  # exact (scaled) copies of some columns and rows
+        A = rng.normal(size=(n, m))
+        for _ in range(int(rng.integers(1, 3))):
+            a_, b_ = rng.choice(m, size=2, replace=False)
+            A[:, b_] = A[:, a_] * float(gens.pick(rng, (1.0, 3.0, -2.0, 0.5)))
+        if rng.random() < 0.5 and n > 3:
+            a_, b_ = rng.choice(n, size=2, replace=False)
+            A[b_] = A[a_] * float(gens.pick(rng, (1.0, 2.0, -1.0)))
+        return A
+    if kind == "multiscale":  # features in mixed units: a few columns of order 1, the rest smaller by 1e-3 .. 1e-7
+        A = rng.normal(size=(n, m))
+        small = rng.random(m) < 0.6
+        small[int(rng.integers(m))] = False
+        A[:, small] *= 10.0 ** -float(rng.uniform(3, 7))
+        return A
     if kind == "lowrank_hi":
         r = max(2, min(n, m) - int(rng.integers(0, 3)))
         return rng.normal(size=(n, r)) @ rng.normal(size=(r, m))
@@ -104,21 +119,29 @@ def _fit(spec, X, y, j, label="", past=None):
 
 def _tolerance_clear(spec, X, seq):
     """The selectors' `tolerance` is an absolute threshold on the norm of a (residual) item below which it is treated as
-    zero, and the relative cut of the pseudo-inverse that explains y by the selections.  A case is judged only when
-    every quantity the code compares with it is clear of it (factor 100)."""
+    zero, and the cut of the least-squares explanation of y by the selections (feature direction: pseudo-inverse of the
+    Gram matrix of the selected columns, i.e. on SQUARED singular values; sample direction: lstsq, on singular values).
+    A case is judged only when every quantity the code compares with it is clear of it by a factor 100 either way."""
     tol = float(spec["kw"].get("tolerance", 1e-12))
-    A = np.asarray(sel.items(X, sel.axis_of(spec)), dtype=float)
+    axis = sel.axis_of(spec)
+    A = np.asarray(sel.items(X, axis), dtype=float)
     R = A.copy()
     for t, i in enumerate(seq):
         r = float(np.linalg.norm(R[i]))
+        if r <= 1e-13 * float(np.linalg.norm(A[i])) and r < tol / 100:
+            continue  # numerically an exact copy of selected items: zero for the code and for the oracle alike
         if r < 100 * tol:
-            return False
+            return False  # the code treats it as zero (or nearly does), the documented projection does not
         q = R[i] / r
         R = R - np.outer(R @ q, q)
     if spec["cls"] == "PCovCUR" and seq:
         sv = np.linalg.svd(A[seq], compute_uv=False)
-        r_ = min(len(seq), A.shape[1])
-        if (sv[r_ - 1] / sv[0]) ** 2 < 100 * tol:
+        if not len(sv) or sv[0] <= 0:
+            return False
+        sv = sv[sv > 1e-14 * sv[0]]  # exact copies among the selections add exact zeros
+        ratio = float(sv[-1] / sv[0])
+        cutq = ratio**2 if axis == 1 else ratio
+        if tol / 100 <= cutq < 100 * tol:
             return False
     return True
 
@@ -147,10 +170,12 @@ def _judge_fit(spec, X, y, est, tr, j, judge_scores=True):
             if spec["cls"] == "PCovCUR" and Sr:
                 A = sel.items(X, axis)[Sr]
                 sv = np.linalg.svd(A, compute_uv=False)
-                ok_cond = sv[-1] > 1e-5 * sv[0] if len(Sr) <= A.shape[1] else True
+                lim = 1e-5 if axis == 1 else 1e-9  # feature direction: pseudo-inverse of the squared spectrum; sample: lstsq
+                ok_cond = sv[-1] > lim * sv[0] if len(Sr) <= A.shape[1] else True
                 if len(Sr) > A.shape[1]:
-                    ok_cond = sv[min(A.shape) - 1] > 1e-5 * sv[0]
-            cache[r] = sel.pi_oracle(spec, X, y, Sr) if ok_cond else (None, False)
+                    ok_cond = sv[min(A.shape) - 1] > lim * sv[0]
+            # singular values are relative gaps of squared ones for the Gram-based scores: 1e-4 on singular values (CUR), 1e-6 on eigenvalues (PCov-CUR)
+            cache[r] = sel.pi_oracle(spec, X, y, Sr, min_gap=1e-4 if spec["cls"] == "CUR" else 1e-6) if ok_cond else (None, False)
         pi, gap_ok = cache[r]
         if pi is None or not gap_ok:
             j.skip("degenerate-subspace-or-ill-conditioned")
